@@ -58,6 +58,25 @@ pub fn exec_fields(f0: &[&str]) -> String {
         ["numenc", v] => match parse_tree(v) {
             Some(Value::Number(n)) => {
                 let mut b = Vec::new();
+                // the writer is generic: a writer that accepts a few bytes per call must receive the same bytes
+                // (write_all semantics), a slot that is too short must give an error, never a shorter number
+                struct Chunky(Vec<u8>, usize);
+                impl std::io::Write for Chunky {
+                    fn write(&mut self, buf: &[u8]) -> std::io::Result<usize> { let k = buf.len().min(self.1); self.0.extend_from_slice(&buf[..k]); Ok(k) }
+                    fn flush(&mut self) -> std::io::Result<()> { Ok(()) }
+                }
+                {
+                    let mut reference = Vec::new();
+                    if n.compact_encode(&mut reference).is_ok() {
+                        for chunk in [1usize, 2, 3, 4] {
+                            let mut w = Chunky(vec![], chunk);
+                            match n.compact_encode(&mut w) { Ok(len) if w.0 == reference && len == reference.len() => {}, _ => return "MISMATCH a writer that takes a few bytes per call got other bytes".to_string() }
+                        }
+                        let mut slot = vec![0u8; reference.len().saturating_sub(1)];
+                        let mut cur = std::io::Cursor::new(&mut slot[..]);
+                        if n.compact_encode(&mut cur).is_ok() { return "MISMATCH encoding into a slot one byte too short reports success".to_string(); }
+                    }
+                }
                 match n.compact_encode(&mut b) {
                     Ok(len) if len == b.len() => format!("ok {}", hex(&b)),
                     Ok(_) => "ok-len-mismatch".to_string(),
